@@ -61,7 +61,7 @@ func c07SentinelWait() time.Duration {
 	return 15 * time.Second
 }
 
-var c07Cols = []string{"a", "b", "t"}
+var c07Cols = []string{"a", "b", "t", "Aa", "BB"} // "Aa" and "BB" have equal 31-polynomial hashes: SUM(Aa) / SUM(BB) once shared a placeholder
 
 // ---------------------------------------------------------------- AST
 
@@ -253,7 +253,7 @@ func (q *c07Query) sql() string {
 
 type c07Row struct {
 	d    string
-	vals []float64 // a, b, t
+	vals []float64 // a, b, t, Aa, BB
 }
 
 func (a *c07Arg) eval(r c07Row) float64 {
@@ -376,9 +376,23 @@ func c07GenArg(rng *rand.Rand, fn string, wantExpr bool) *c07Arg {
 	return a
 }
 
+// c07HashTwin: the last aggregate of the query under construction whose argument is the bare column Aa or BB;
+// the next aggregate is then, half of the time, the same function over the other of the two — call texts with
+// equal 31-polynomial hashes inside one query.
+var c07HashTwin *c07Expr
+
 func c07GenAgg(rng *rand.Rand, exprArgPct int) *c07Expr {
+	if t := c07HashTwin; t != nil && rng.Intn(2) == 0 {
+		other := map[string]string{"Aa": "BB", "BB": "Aa"}[t.arg.col]
+		c07HashTwin = nil
+		return &c07Expr{kind: "agg", fn: t.fn, arg: &c07Arg{kind: "col", col: other}}
+	}
 	fn := c07Fns[rng.Intn(len(c07Fns))]
-	return &c07Expr{kind: "agg", fn: fn, arg: c07GenArg(rng, fn, rng.Intn(100) < exprArgPct)}
+	e := &c07Expr{kind: "agg", fn: fn, arg: c07GenArg(rng, fn, rng.Intn(100) < exprArgPct)}
+	if e.arg.kind == "col" && (e.arg.col == "Aa" || e.arg.col == "BB") {
+		c07HashTwin = e
+	}
+	return e
 }
 
 // c07NegLits is switched on per query (never together with the compact rendering, where
@@ -447,9 +461,11 @@ func c07GenRows(rng *rand.Rand, keys []string, n int) []c07Row {
 	av := []float64{0, 1, 2, 3, 4, 6}
 	bv := []float64{0.5, 1.5, 2.5, -1, 2}
 	tv := []float64{10, 20, 30, 50}
+	xv := []float64{1, 2, 5}
+	yv := []float64{100, 200, -3}
 	rows := make([]c07Row, n)
 	for i := range rows {
-		rows[i] = c07Row{d: keys[rng.Intn(len(keys))], vals: []float64{av[rng.Intn(len(av))], bv[rng.Intn(len(bv))], tv[rng.Intn(len(tv))]}}
+		rows[i] = c07Row{d: keys[rng.Intn(len(keys))], vals: []float64{av[rng.Intn(len(av))], bv[rng.Intn(len(bv))], tv[rng.Intn(len(tv))], xv[rng.Intn(len(xv))], yv[rng.Intn(len(yv))]}}
 	}
 	// every key of the batch appears at least once when there is room
 	for i, k := range keys {
@@ -480,6 +496,7 @@ func (c07) Gen(rng *rand.Rand, tier string, idx int) Case {
 		return c07GenSorter(rng)
 	}
 	var c Case
+	c07HashTwin = nil
 	q := &c07Query{limit: -1, lower: rng.Intn(4) == 0, compact: rng.Intn(4) == 0}
 	stat := map[string]bool{}
 	c07NegLits = !q.compact && rng.Intn(3) == 0
@@ -660,7 +677,7 @@ func (c07) Gen(rng *rand.Rand, tier string, idx int) Case {
 		if q.limit == 0 {
 			mode = "direct"
 		} else {
-			for _, cand := range [][]float64{{1000, 1000, 1000}, {0, 0, 0}, {-1000, -1000, -1000}, {1, 2, 3}, {1000, 0, 0}, {0, 0, 1000}, {2, 0.5, 10}} {
+			for _, cand := range [][]float64{{1000, 1000, 1000, 1000, 1000}, {0, 0, 0, 0, 0}, {-1000, -1000, -1000, -1000, -1000}, {1, 2, 3, 4, 5}, {1000, 0, 0, 0, 0}, {0, 0, 1000, 0, 1000}, {2, 0.5, 10, 1, 100}, {0, 0, 0, 1000, 0}, {0, 0, 0, 0, 1000}} {
 				rows := make([]c07Row, q.n)
 				for i := range rows {
 					rows[i] = c07Row{d: c07Sentinel, vals: cand}
